@@ -497,8 +497,44 @@ def preamble_path():
     return os.path.join(repo, "src", "verifying", "problem", "standard_interpretation.p")
 
 
+# ------------------------------------------------------------------ the pinned preamble (audit B8)
+def pin_of(decls, axioms):
+    """names and content hashes of the declarations and axioms: what props/C12.json pins.  The hash is
+    over the parsed syntax tree (layout-insensitive)."""
+    import hashlib
+
+    def h(x):
+        return hashlib.sha256(repr(x).encode()).hexdigest()[:16]
+    return {"declarations": [{"name": n, "ident": i, "sha": h(sg)} for n, i, sg in decls],
+            "axioms": [{"name": n, "sha": h(f)} for n, f in axioms]}
+
+
+def compare_pin(pinned, current):
+    """-> list of (kind, what, name); kind in removed / new / changed / reordered"""
+    out = []
+    for what in ("declarations", "axioms"):
+        old = {e["name"]: e for e in pinned.get(what, [])}
+        new = {e["name"]: e for e in current.get(what, [])}
+        for n in old:
+            if n not in new:
+                out.append(("removed", what, n))
+            elif {k: v for k, v in old[n].items()} != {k: v for k, v in new[n].items()}:
+                out.append(("changed", what, n))
+        for n in new:
+            if n not in old:
+                out.append(("new", what, n))
+        if not out and [e["name"] for e in pinned.get(what, [])] != [e["name"] for e in current.get(what, [])]:
+            out.append(("reordered", what, ""))
+    return out
+
+
 def main():
     src = preamble_path()
+    if "--pin" in sys.argv:
+        import json
+        _, decls, axioms = parse_file(open(src).read())
+        print(json.dumps(pin_of(decls, axioms), indent=1))
+        return 0
     verif = os.path.dirname(os.path.dirname(os.path.abspath(__file__)))
     dst = os.path.join(verif, "coq", "theories", "Gen", "Preamble.v")
     try:
